@@ -268,6 +268,15 @@ impl Action {
     }
 }
 
+/// (node, key) of a store completion notification
+fn notification_key(a: &Action) -> Option<(usize, RecordKey)> {
+    match a {
+        Action::Local(n, LocalSwarmCmd::AddLocalRecordAsStored { key, .. }) => Some((*n, key.clone())),
+        Action::Local(n, LocalSwarmCmd::RemoveFailedLocalRecord { key }) => Some((*n, key.clone())),
+        _ => None,
+    }
+}
+
 pub struct Cluster {
     pub rt: Runtime,
     pub nodes: Vec<NodeSim>,
@@ -412,7 +421,17 @@ impl Cluster {
         if i >= self.pending.len() {
             return;
         }
+        // completion notifications of ONE key keep their issue order (as in the store sims: the
+        // statements quantify over the order of messages and of tasks for different keys, not over a
+        // reordering of one key's own completions): picking a later one delivers the earliest
+        let i = match notification_key(&self.pending[i]) {
+            Some(k) => self.pending.iter().position(|a| notification_key(a).as_ref() == Some(&k)).unwrap_or(i),
+            None => i,
+        };
         let act = self.pending.remove(i);
+        if std::env::var_os("VERIF_DEBUG").is_some() {
+            eprintln!("      step: {}", act.describe());
+        }
         match act {
             Action::Local(n, cmd) => {
                 let d = &mut self.nodes[n].driver;
@@ -432,7 +451,7 @@ impl Cluster {
         match cmd {
             NetworkSwarmCmd::SendRequest { req, peer, sender } => {
                 let target = self.idx_of(&peer);
-                self.wire.push((from, target, vh_core::one_line(&format!("{req:?}"), 100)));
+                self.wire.push((from, target, { let t = format!("{req:?}"); if std::env::var_os("VERIF_DEBUG").is_some() { let k = t.find("key:").or(t.find("keys:")).unwrap_or(0); t[k..].chars().take(100).collect() } else { vh_core::one_line(&t, 100) } }));
                 let Some(t) = target else {
                     // nobody there: the request fails
                     if let Some(s) = sender {
